@@ -249,7 +249,14 @@ def backend_run(chk, cb, n, m_, budget):
                    sample={'indices': [(r.index_u, r.index_s, r.kind) for r in results]} if k < 40 and len(results) > 1 else None)
         elif v == 'sat':
             env = model_to_env(m)
-            chk.fail(oid, 'a reported connection violates its contract', _run_replay(env, n, m_), env)
+            # the solver saw the pairwise squared distances as free reals: the model's coordinates need not realise them. Alternatives:
+            # (a) the model's coordinates, (b) a planar cloud fitted to the model's distances, (c) clustered random clouds (same oracle)
+            bodies = [_run_replay(env, n, m_)]
+            env2 = _realise_cloud(ex, m, env, n, m_)
+            if env2 is not None:
+                bodies.append(_run_replay(env2, n, m_))
+            bodies.append(_run_replay_random(n, m_))
+            chk.fail(oid, 'a reported connection violates its contract', bodies, env)
         else:
             chk.unknown(oid, v)
     st = chk.absorb(ex)
@@ -287,6 +294,73 @@ _verdict(bool(bad), problems=bad, n_results=len(res))
 ''' % ([[g('u%d%s' % (i, c)) for c in 'xy'] for i in range(n)], [[g('s%d%s' % (j, c)) for c in 'xy'] for j in range(m_)],
        [[g('U%d_%d' % (i, k)) for k in range(6)] for i in range(n)], [[g('S%d_%d' % (j, k)) for k in range(6)] for j in range(m_)],
        g('eps'), g('dv_tol'), g('bal_tol'))
+
+
+def _realise_cloud(ex, m, env, n, m_):
+    """Planar points whose pairwise squared distances are (as nearly as possible) the values the model gave to the abstracted
+    distances; the cross distances u_i - s_j are weighted most (they are what the filter compares)."""
+    try:
+        import numpy as rnp
+        from scipy.optimize import least_squares
+        from engine.explore import z3val_to_fraction
+        want = {}
+        for P, T in ex.abstract_basis:
+            nm = str(T)
+            if nm.startswith('d2_'):
+                want[tuple(nm[3:].split('_'))] = float(z3val_to_fraction(m.eval(T, model_completion=True), 30))
+        names = ['u%d' % i for i in range(n)] + ['s%d' % j for j in range(m_)]
+        idx = {a: k for k, a in enumerate(names)}
+        cross = [(idx[a], idx[b], v, 1.0 if a[0] != b[0] else 0.05) for (a, b), v in want.items() if a in idx and b in idx]
+        if not cross:
+            return None
+
+        def res(x):
+            p = x.reshape(-1, 2)
+            return rnp.array([w * (float(rnp.sum((p[a] - p[b]) ** 2)) - v) for a, b, v, w in cross])
+        rs = rnp.random.default_rng(19)
+        scale = max(1e-6, max(v for _, _, v, _ in cross)) ** 0.5
+        best = None
+        for _ in range(40):
+            r = least_squares(res, rs.normal(size=2 * len(names)) * scale)
+            if best is None or r.cost < best.cost:
+                best = r
+        p = best.x.reshape(-1, 2)
+        env2 = dict(env)
+        for a, k in idx.items():
+            env2[a + 'x'], env2[a + 'y'] = float(p[k, 0]), float(p[k, 1])
+        return env2
+    except Exception:
+        return None
+
+
+def _run_replay_random(n, m_):
+    """The same oracle as _run_replay on clustered random clouds (several candidates inside the radius for one point)."""
+    return '''
+from hiten.algorithms.connections.backends import _ConnectionsBackend
+from hiten.algorithms.connections.types import ConnectionsBackendRequest
+rs = np.random.default_rng(1919); bad = {}
+for case in range(60):
+    nu, ns = int(rs.integers(2, 7)), int(rs.integers(2, 7))
+    centres = rs.normal(size=(2, 2))
+    pu = centres[rs.integers(0, 2, nu)] + 0.05 * rs.normal(size=(nu, 2)); ps = centres[rs.integers(0, 2, ns)] + 0.05 * rs.normal(size=(ns, 2))
+    Xu = rs.normal(size=(nu, 6)); Xs = rs.normal(size=(ns, 6)); Xu[:, 3:] *= 0.01; Xs[:, 3:] *= 0.01
+    eps, dv_tol, bal_tol = 0.2, 0.05, 0.01
+    res = _ConnectionsBackend().run(ConnectionsBackendRequest(pu, ps, Xu, Xs, None, None, eps, dv_tol, bal_tol)).results
+    prev = -1.0
+    for r in res:
+        i, j = r.index_u, r.index_s
+        d2 = lambda a, b: float(np.sum((pu[a] - ps[b])**2))
+        if d2(i, j) > eps*eps: bad["case%d_outside_radius" % case] = [i, j]
+        if any(d2(i, b) < d2(i, j) for b in range(ns) if b != j): bad["case%d_not_nearest_for_u" % case] = [i, j]
+        if any(d2(a, j) < d2(i, j) for a in range(nu) if a != i): bad["case%d_not_nearest_for_s" % case] = [i, j]
+        dv = float(np.linalg.norm(r.state_u[3:6] - r.state_s[3:6]))
+        if abs(dv - r.delta_v) > 1e-12: bad["case%d_delta_v" % case] = [dv, float(r.delta_v)]
+        if r.delta_v > dv_tol: bad["case%d_above_limit" % case] = float(r.delta_v)
+        if (r.kind == "ballistic") != (r.delta_v <= bal_tol): bad["case%d_label" % case] = [r.kind, float(r.delta_v)]
+        if r.delta_v < prev: bad["case%d_order" % case] = [prev, float(r.delta_v)]
+        prev = r.delta_v
+_verdict(bool(bad), **{k: bad[k] for k in list(bad)[:6]})
+'''
 
 
 def _replay_general():
